@@ -65,6 +65,8 @@ def run(tier):
             okr = [normalize(r) for ctl, r in renders if ctl == OK]
             if len(renders) != 1 or len(okr) != 1 or has_unk(okr[0]) or okr[0][0] != "sstr":
                 C.note("undecided", name + " (printer not decidable: %s)" % [str(r)[:80] for _, r in renders])
+                C.ob("C18/decidable", name, False, "the printer of this value is no longer decidable (unmodelled operation in Display: %s); every codec outside the listed free-text ones was decidable when the check was built" % [str(r)[:80] for _, r in renders],
+                     F.fns[mod.fromstr_impls[t]]["sp"])
                 continue
             text = okr[0]
             parses, I2 = roundtrip.parse_value(F, mod, t, text)
@@ -83,6 +85,8 @@ def run(tier):
             if und and outs != want:
                 # undecidable outcome (unsupported operation) - do not guess
                 C.note("undecided", name + " (parser not decidable)")
+                C.ob("C18/decidable", name, False, "parsing the printed text %s is no longer decidable (unmodelled operation in FromStr; outcomes %s)" % (show_value(text), sorted(show_value(o)[:60] for o in outs)),
+                     F.fns[mod.fromstr_impls[t]]["sp"])
                 continue
             decided += 1
             C.ob("C18/parse-print", name, outs == want,
